@@ -18,7 +18,7 @@ What is proved (for every lawful live-map `M`, every page size, address, length,
                               written bytes, lies in the mapped holder and is closed again; every
                               holder is unmapped by `code_finish`;
   * `code_sites_in_code_page` (inventory) mem_map / mem_unmap / mem_protect have exactly those callers;
-  * `raw_alloc_free_partial`  (inventory) no direct libc allocator use outside the listed known sites.
+  * `raw_alloc_free`          (inventory) no direct libc allocator use anywhere in the library sources.
 What is NOT proved: that the rest of the library (everything that is not VARR / code holders) frees
 what it allocates — that is monitored on generated API histories by checks/c17.py, not proved.
 -/
@@ -266,32 +266,12 @@ theorem code_sites_in_code_page :
 example : MirVerif.Gen.C17.reallocSites.length = 2 ∧ MirVerif.Gen.C17.memProtectSites.length = 2
     ∧ 30 ≤ MirVerif.Gen.C17.nMallocSites ∧ 50 ≤ MirVerif.Gen.C17.nFreeSites := by decide
 
-/-- direct uses of the libc allocator in the library that are recorded as known findings
-(DESIGN §6 #14); keyed by file, enclosing function and callee — not by line.  The candidate repair
-`fixes/C17-c2mir-raw-alloc.patch` removes all of them. -/
-def knownRawSites : List (String × String × String) :=
-  [("c2mir/c2mir.c", "c2mir_finish", "free"), ("c2mir/c2mir.c", "free_stream", "free"),
-   ("c2mir/c2mir.c", "new_macro", "malloc"), ("c2mir/c2mir.c", "finish_macros", "free"),
-   ("c2mir/c2mir.c", "new_macro_call", "malloc"), ("c2mir/c2mir.c", "free_macro_call", "free"),
-   ("c2mir/c2mir.c", "new_ifstate", "malloc"), ("c2mir/c2mir.c", "pop_ifstate", "free"),
-   ("c2mir/c2mir.c", "pre_finish", "free"), ("c2mir/c2mir.c", "parse_finish", "free"),
-   ("c2mir/c2mir.c", "context_finish", "free"), ("c2mir/c2mir.c", "gen_finish", "free")]
-
-/- The full statement
-     raw_alloc_free : MirVerif.Gen.C17.rawAllocSites = []
-   is FALSE on the current sources: c2mir.c releases blocks obtained with `MIR_calloc`/`MIR_malloc`
-   through libc `free` (c2mir_finish, free_stream, pre_finish, parse_finish, context_finish,
-   gen_finish) and allocates macros, macro calls and #if states with libc `malloc`
-   (new_macro, new_macro_call, new_ifstate; freed in finish_macros, free_macro_call, pop_ifstate).
-   checks/c17.py replays each of them on the real code (libc interposition in the harness) and
-   reports them under the signatures "C17:raw-<callee>:c2mir.c:<function>". -/
-
-open MirVerif.Gen.C17 in
-/-- **raw_alloc_free_partial.**  Apart from the listed known sites the library sources contain no
-direct `malloc/calloc/realloc/free/mmap/munmap/mprotect/…` (call or reference) outside the two
-`*-default.c` files. -/
-theorem raw_alloc_free_partial :
-    rawAllocSites.filter (fun s => !(knownRawSites.contains (s.file, s.func, s.callee))) = [] := by
-  decide
+/-- **raw_alloc_free.**  The library sources (include closure of mir.c, mir-gen.c, c2mir/c2mir.c) contain
+no direct `malloc/calloc/realloc/free/mmap/munmap/mprotect/…` (call or reference) outside the two
+`*-default.c` files.  No site is tolerated: the 12 sites of c2mir.c that made this false (DESIGN §6
+#14) were repaired in /repo (3a621bf7) and are replayed from `corpus/C17/c2m-raw-alloc.json`; a new raw
+site breaks this theorem and is reported by checks/c17.py as `C17:raw-<callee>:<file>:<function>`
+(inventory) and, when executed, by the libc interposition of the harness. -/
+theorem raw_alloc_free : MirVerif.Gen.C17.rawAllocSites = [] := by decide
 
 end MirVerif.Props.C17
